@@ -8,7 +8,7 @@ CONSTANTS
   Kinds = {"F", "X", "M", "U", "S", "H", "L"}
   Pairs = "dep"
   BurySizes = {2}
-  Rev = FALSE
+  Rev = TRUE
   MaxH = 6
 VIEW View
 CONSTRAINT Bound
